@@ -152,7 +152,10 @@ DegKinds == {"blank", "tab", "hash", "lbr", "lbrs", "lbrss", "scheme", "quicnoho
 \* only; leading line break), put into keys no step touches.  The ideal
 \* outcome keeps them; since the encoder cannot, refusing the upgrade with
 \* the file unchanged is the other admissible outcome (Unwritable below).
-MLKinds  == {"tabml", "nlonly", "nl2", "leadnl"}
+\* (indnl: a line break followed by an INDENTED line, "\n  x\n": written as a
+\* block scalar that reads back without the empty first line and is written
+\* the same way again -- a stable but wrong form.)
+MLKinds  == {"tabml", "nlonly", "nl2", "leadnl", "indnl"}
 DegLit   == [k \in DegKinds \cup MLKinds |-> "deg:" \o k]
 \* (Minus zero, -0.0, is in the same class: the encoder writes "-0", which
 \* reads back as the integer 0 and is written as "0" the next time.)
@@ -654,7 +657,7 @@ DevKinds(v, k) ==
                      /\ k \in {"bind_host", "auth_pass", "auth_name", "cl0.ip", "cl0.mac", "fl0.url"}
                    THEN DegKinds ELSE {})
            \cup (IF k = "bind_host" THEN {"str", "v6", "hostport"} ELSE {})
-           \cup (IF k = "auth_pass" THEN {"long"} ELSE {})
+           \cup (IF k = "auth_pass" THEN {"long", "indnl"} ELSE {})
            \cup (IF k \in RecKeys(v) THEN {"recs"} ELSE {})
            \cup (IF k = "filters" THEN DOMAIN Perms ELSE {})
            \cup (IF c.t = "list" /\ k \in ConcFrom[v]
